@@ -849,3 +849,4 @@ def run(chk):
   with_order(chk, 'C09-R5')
   unnesting_order(chk, 'C09-R5')
   K.translation_not_memoised(chk, 'C09-R5')
+  K.entangle_attached(chk, 'C09-R5')
